@@ -370,9 +370,12 @@ PROPS = {
     },
     "C15": {
         "groups": {"json_value": sel_prefix("tok_", "arr_", "hunt_"), "pushpop": sel_all, "json_object": sel_obj},
-        "outside": ("every object-shaped token (obj.get(k)...unwrap() sites): serde_json::Map is a BTreeMap CBMC does not get "
-                    "through; whole-document parsing, nesting depth, reset-after-failed-load, the streaming loader's structure"),
-        "assumptions": ["tokens are built directly as serde_json::Value (what serde_json::from_str hands the loader)"],
+        "outside": ("everything that iterates a JSON object (list contents, named content of container terminators, list "
+                    "definitions, flows, threads, call stacks, variables, visit counts); the numeric RANGE of secondary keys such as "
+                    "flg/exArgs (only their type is decided); whole-document parsing (serde_json::from_str), nesting depth, bounded "
+                    "time, reset-after-failed-load, the streaming loader; hunt_* harnesses make no claim when they time out"),
+        "assumptions": ["tokens are built directly as serde_json::Value (what serde_json::from_str hands the loader)",
+                        "object tokens: serde_json::Map::insert/get behave as a map from String to Value (stubbed by an association list)"],
     },
     "C04": {
         "groups": {"native_scalar": sel_c04_scalar, "list_ops": sel_list("c04_", 2), "native_list": sel_list("c04_", 8)},
